@@ -69,11 +69,13 @@ func PoolAPI(p *core.Prog, r *core.Report) {
 				case n == pi.resultType:
 					// enumerated by NO-DROP / RES-LINEAR
 				case n != nil && pi.pooled[n]:
-					want := "(*" + n.Obj().Name() + ").redeem"
-					if fn == want {
+					want := "(*" + core.KnownTypeName(n) + ").redeem"
+					// by type, not by spelling (the type may have been renamed; names of functions are followed by anchors)
+					isOwn := f.Signature.Recv() != nil && core.NamedOf(f.Signature.Recv().Type()) == n && strings.HasSuffix(fn, ").redeem")
+					if fn == want || isOwn {
 						r.OK(rule, "redeem-caller:"+fn, p.Pos(i.Pos()), "pool redeem called from the type's own redeem()")
 					} else {
-						r.Bad(rule, "redeem-caller:"+fn+":"+g.Name()+":"+n.Obj().Name(), p.Pos(i.Pos()), "a validator is put in its pool directly, bypassing "+want+" and the slot protocol")
+						r.Bad(rule, "redeem-caller:"+fn+":"+g.Name()+":"+core.KnownTypeName(n), p.Pos(i.Pos()), "a validator is put in its pool directly, bypassing "+want+" and the slot protocol")
 					}
 				default:
 					// scratch objects (spec.Schema): must be released in a deferred closure of the function that borrowed them
@@ -98,8 +100,12 @@ func PoolAPI(p *core.Prog, r *core.Report) {
 				if n == nil || !pi.pooled[n] {
 					return
 				}
-				key := "self-redeem-caller:" + fn + ":" + n.Obj().Name()
-				if f.Parent() != nil && core.FuncName(f.Parent()) == "(*"+n.Obj().Name()+").Validate" {
+				key := "self-redeem-caller:" + fn + ":" + core.KnownTypeName(n)
+				parentIsOwnValidate := false
+				if par := f.Parent(); par != nil && par.Signature.Recv() != nil && core.NamedOf(par.Signature.Recv().Type()) == n && strings.HasSuffix(core.FuncName(par), ").Validate") {
+					parentIsOwnValidate = true
+				}
+				if f.Parent() != nil && (core.FuncName(f.Parent()) == "(*"+core.KnownTypeName(n)+").Validate" || parentIsOwnValidate) {
 					r.OK(rule, key, p.Pos(i.Pos()), "called from the deferred closure of the type's Validate")
 					return
 				}
